@@ -46,6 +46,12 @@ def run(ctx):
         # the faithful model: everything but NoOrphans holds, and the only garbage are stale leaves
         ctx.tlc_check("trie", "Trie2.tla", "Trie2_faithful.cfg", timeout=3000, label="Trie2.tla/faithful(FixValueDeletePath=FALSE)")
     if thorough:
+        # vacuity: every action of the exhaustive configurations is taken
+        for mod, cfg in (("LegacyTrie.tla", "Legacy_quick.cfg"), ("Trie2.tla", "Trie2_quick.cfg"), ("StateCommit.tla", "State_quick.cfg")):
+            r = ctx.tlc_check("trie", mod, cfg, coverage=True, timeout=1200, label=mod + "/coverage")
+            vlib.require_actions_covered(r)
+            if not r.get("coverage"):
+                raise vlib.Broken("no action coverage reported for " + mod)
         # spec self-test: seeded defects must violate the properties (the specification is not vacuous)
         for mod, cfg, bug in (("LegacyTrie.tla", "Legacy_quick.cfg", "nodirty-on-delete"),
                               ("LegacyTrie.tla", "Legacy_quick.cfg", "nodirty-on-split"),
